@@ -1,13 +1,12 @@
 /-
 Witnesses of violations of C16.
 
-**Section LF (open defect of /repo).**  The printer as it is in /repo (`Sqfs.Quote.describeNode`, after 96e45c1)
-prints a symlink target or an `<unpack-root>/<path>` location that contains a line feed; the pack-file format has no
+**Section LF (repaired by 4b35342, kept as regression inputs).**  The printer without the line-feed test
+(`Sqfs.Quote.describeNode`: /repo between 96e45c1 and 4b35342) prints a symlink target or an `<unpack-root>/<path>` location that contains a line feed; the pack-file format has no
 way to carry one (`istream_get_line` cuts at every LF, `split_line` has no escape for it), so the listing is rejected
 by `gensquashfs --pack-file` — or, worse, silently decoded to a different tree: whatever follows the LF is read as
-pack-file lines of its own.  The property excludes LF from entry *names* only.  Replayed on the real code by every
-run of the check (`corpus/C16/lf.cases.json`; keys `LF:*` in `known_findings.d/C16.json` until
-`fixes/C16-describe-newline.patch` is committed).
+pack-file lines of its own.  The property excludes LF from entry *names* only.  The same nodes are replayed on the
+real code by every run of the check (`corpus/C16/lf.cases.json`, tool-level LF cases) and must be refused now.
 
 **Section D13 (repaired by 96e45c1, kept as regression inputs).**  The printer of the pinned snapshot
 (`Sqfs.QuoteOld`) quoted names only on space/`"`, escaped only `"`, printed targets and locations verbatim and never
@@ -28,9 +27,9 @@ def oldRoundTrip (ur : Option Sqfs.Path.Bytes) (comps : List Sqfs.Path.Bytes) (n
 def slinkNode (t : Sqfs.Path.Bytes) : Node := { kind := .slink, perm := 0o777, uid := 0, gid := 0, target := t }
 def fileNode : Node := { kind := .file, perm := 0o644, uid := 0, gid := 0 }
 
-/-! ## Section LF — the printer in /repo today -/
+/-! ## Section LF — the printer without the line-feed test (repaired in /repo by 4b35342) -/
 
-/-- what the real parser makes of the line the printer in /repo prints for a node -/
+/-- what the real parser makes of the line the printer without the line-feed test prints for a node -/
 def curRoundTrip (ur : Option Sqfs.Path.Bytes) (comps : List Sqfs.Path.Bytes) (n : Node) :=
   match describeNode ur comps n with
   | .ok line => some (fstreeFromFile {} line)
@@ -68,7 +67,7 @@ theorem cur_location_lf_silently_altered :
       = some ([{ name := [102], mode := 0o100644, uid := 0, gid := 0, rdev := 0, extra := some [117] }], none) := by
   decide
 
-/-- the negation of the full-strength listing theorem for the printer in /repo: a tree every image can hold
+/-- the negation of the full-strength listing theorem for the printer without the test: a tree every image can hold
 (`RootOkN`, no LF in any *name*) whose listing is printed without complaint and does not decode to the tree -/
 theorem cur_describe_lf_not_rebuilt :
     ∃ t out, RootOkN t ∧ describe none t = .ok out ∧ fstreeFromFile {} out ≠ (specTree none [] t, none) := by
